@@ -9,6 +9,8 @@ import (
 	"path/filepath"
 	"regexp"
 	"strings"
+
+	"github.com/JunNishimura/Goit/internal/object"
 )
 
 var (
@@ -176,12 +178,6 @@ func (c *Config) Add(ident, key, value string, isGlobal bool) {
 }
 
 func (c *Config) Write(configPath string, isGlobal bool) error {
-	f, err := os.Create(configPath)
-	if err != nil {
-		return err
-	}
-	defer f.Close()
-
 	var content string
 	var kvs map[string]kv
 	if isGlobal {
@@ -196,9 +192,5 @@ func (c *Config) Write(configPath string, isGlobal bool) error {
 		}
 	}
 
-	_, err = f.WriteString(content)
-	if err != nil {
-		return err
-	}
-	return nil
+	return object.WriteFileAtomic(configPath, configPath+".tmp", []byte(content))
 }
